@@ -37,7 +37,7 @@ func LockOp(in ssa.Instruction) (op, lock string, ok bool) {
 	if len(args) == 0 {
 		return "", "", false
 	}
-	return k, Desc(args[0]), true
+	return k, DescDeep(args[0]), true
 }
 
 // LockSets holds, for every instruction of a function, the set of locks held just before it.
@@ -186,7 +186,7 @@ func (p *Prog) lockSetsWithCallers(fn *ssa.Function, depth int) *LockSets {
 			args := CallArgs(cs.Call())
 			for l := range held {
 				for i, a := range args {
-					d := Desc(a)
+					d := DescDeep(a)
 					for _, pre := range []string{"&" + d + ".", d + "."} {
 						if strings.HasPrefix(l, pre) {
 							tr[strings.Replace(l, d, "p"+itoa(i), 1)] = true
@@ -250,7 +250,7 @@ func (r *Report) FieldLockCheck(rule, typ, field, lockField string, fns []*ssa.F
 				continue
 			}
 			held := ls.At(a.Site)
-			bd := Desc(base)
+			bd := DescDeep(base)
 			ok := false
 			for l := range held {
 				core := strings.TrimSuffix(l, ":r")
